@@ -1,4 +1,4 @@
-import MaltModel.Proofs.C14Forward
+import MaltModel.Proofs.C14Table
 import MaltModel.Proofs.C14Frames
 /-!
 # C14 — builtin overloads behave like the builtins on ordinary Python values
@@ -198,6 +198,161 @@ theorem C14_tables_closed (b : String) (hb : b ∈ supportedBuiltins) :
       ∀ br ∈ h.branches, br.call.callee = b ∧
         ((ov.ret == .value && br.ret == .value) = true ∨ b = "print") :=
   closedFor_elim (closedFor_all b hb)
+
+/-! ## The forwarding theorem over the whole extracted table
+
+Stated once over `BUILTIN_FUNCTIONS_MAP` as extracted (`mappedBuiltins`, 14 entries: the 13 supported
+builtins and `next`, which is mapped but not in `SUPPORTED_BUILTINS`) and over registries that may
+have entries (`staged`).  Adding a map entry without a specification row, or one whose overload,
+helper or registry dispatch is not as required, breaks `C14_table_rows` and this theorem.
+
+What remains outside (`_partial`), each with its reason:
+* `userShape` — an argument that IS the `UNSPECIFIED` sentinel (false without it: `range(1, UNSPECIFIED)`);
+* `unstaged` — an argument that is an instance of a type registered in the overload's registry: the
+  override is called instead (by design; `C14_staged_goes_to_override` shows the dispatch);
+* call shapes the builtin's own signature rejects (outside the property; positional ones are
+  covered by `C14_arity_errors_partial`, keyword ones only by the remark that overloads are more permissive);
+* exceptions raised while evaluating `bool(strict)` (truth value modelled total);
+* the checks `converted_call` makes before its builtin branch (allowlist cache, disabled context,
+  `functools.partial` unwrapping) — property C13.
+
+Full statement (FALSE without the two hypotheses): the same conclusion for every `c` accepted by `form`. -/
+
+/-- Every key of `BUILTIN_FUNCTIONS_MAP` and every member of `SUPPORTED_BUILTINS` has a complete row:
+a specification, a defined overload with a well-formed registry dispatch, a defined helper all of
+whose branches call that builtin and return its result, no truth test other than `_py_zip`'s. -/
+theorem C14_table_rows (b : String) (hb : b ∈ mappedBuiltins ++ supportedBuiltins) :
+    ∃ on ov hl, builtinFunctionsMap.lookup b = some on ∧ findOverload on = some ov ∧
+      dispatchWellFormed ov = true ∧ spec b ≠ [] ∧ findHelper ov.call.callee = some hl ∧
+      ∀ br ∈ hl.branches, br.call.callee = b ∧
+        ((ov.ret == .value && br.ret == .value) = true ∨ b = "print") ∧
+        (∀ g ∈ br.guards, ∀ p, g = .truthy p → hl.name = "_py_zip" ∧ p = "strict") :=
+  rowOk_elim (rowOk_all b hb)
+
+/-- For every entry of the extracted map, every documented form and EVERY call shape the form
+accepts, with no staged argument: the substitute binds the call, dispatches to its `_py_*`
+implementation, the builtin it reaches is `b` itself and its result is returned as is, the builtin's
+parameters are bound to the same argument values (positional-only / keyword names / defaults as
+documented), and every value that reaches the builtin is one of the caller's values passed on
+untouched or a literal of the library source (no extra evaluation). -/
+theorem C14_forward_table_partial (staged : Staging α) (truthy : α → Bool) (b : String)
+    (hb : b ∈ mappedBuiltins) (form : Signature) (hf : form ∈ spec b) (c : CallShape α)
+    (hu : userShape c = true) (hst : unstaged staged c) (env : Env α) (hacc : bind form c = .ok env) :
+    ∃ r env', callMappedS staged truthy b c = .ok (.py r) ∧ r.callee = b ∧
+      (r.tail = true ∨ b = "print") ∧ bind form r.call = .ok env' ∧
+      envEquiv truthy b env env' = true ∧
+      (∀ v ∈ valuesOf r.call, v ∈ valuesOf c ∨ isConst v = true) := by
+  obtain ⟨on, ov, hl, h1, h2, hw, _, h3, hbr⟩ := C14_table_rows b (List.mem_append_left _ hb)
+  have hpm : PreservedM truthy b form c := by
+    obtain ⟨ha, rfl⟩ := bind_ok hacc
+    have hsup : b ∈ supportedBuiltins → PreservedM truthy b form c := by
+      intro hs
+      obtain ⟨r, env', e1, e2, e3, e4⟩ := C14_forward_partial truthy b hs form hf c hu _ (bind_of_accepts ha)
+      exact preservedM_of_preserved truthy b hs form c ⟨r, e1, e2, (bind_ok e3).1, by rw [(bind_ok e3).2] at e4; exact e4⟩
+    simp only [mappedBuiltins, builtinFunctionsMap, List.map_cons, List.map_nil, List.mem_cons, List.not_mem_nil,
+      or_false] at hb
+    rcases hb with rfl | rfl | rfl | rfl | rfl | rfl | rfl | rfl | rfl | rfl | rfl | rfl | rfl | rfl
+    case inr.inr.inr.inr.inr.inr.inr.inr.inr.inl =>
+      simp [spec, specTable, List.lookup] at hf
+      rcases hf with rfl | rfl
+      · exact preservedM_next1 truthy c ha
+      · exact preservedM_next2 truthy c hu ha
+    all_goals exact hsup (by decide)
+  obtain ⟨r, e1, e2, e3, e4⟩ := hpm
+  obtain ⟨_, rfl⟩ := bind_ok hacc
+  rw [callMapped_unfold truthy b on ov c h1 h2] at e1
+  obtain ⟨_, _, hl', _, br, _, _, _, hh, _, hpick, _, _, ht⟩ := callOverload_inv truthy ov c r e1
+  rw [h3] at hh; injection hh with hh; subst hh
+  refine ⟨r, _, ?_, e2, ?_, bind_of_accepts e3, e4, callOverload_provenance truthy ov c r e1⟩
+  · rw [callMappedS_unfold staged truthy b on ov c h1 h2, callOverloadS_unstaged staged truthy ov c hw hst, e1]
+    rfl
+  · rw [ht]; exact (hbr br (pickBranch_mem truthy _ _ _ hpick)).2.1
+
+/-- Non-vacuity: `next(it, d)` through the table entry, registries arbitrary, nothing staged. -/
+example : callMappedS (fun _ _ => none) (fun _ : Nat => true) "next" ⟨[.arg 1, .arg 2], []⟩
+    = .ok (.py ⟨"next", ⟨[.arg 1, .arg 2], []⟩, true⟩) := rfl
+example : callMappedS (fun _ _ => none) (fun _ : Nat => true) "next" ⟨[.arg 1], []⟩
+    = .ok (.py ⟨"next", ⟨[.arg 1], []⟩, true⟩) := rfl
+
+/-- The dispatch when an argument IS staged (why `unstaged` is assumed): `abs(x)` with `x` of a
+registered type calls the override with `x`; `zip(a, b)` calls an override only if both are staged
+with the same one; `print(a, b)` takes the first staged object's. -/
+theorem C14_staged_goes_to_override :
+    callMappedS (fun reg a => if reg = "abs_registry" ∧ a = 7 then some 1 else none) (fun _ : Nat => true)
+      "abs" ⟨[.arg 7], []⟩ = .ok (.override 1 ⟨[.arg 7], []⟩) ∧
+    callMappedS (fun reg a => if reg = "zip_registry" then some a else none) (fun _ : Nat => true)
+      "zip" ⟨[.arg 3, .arg 3], []⟩ = .ok (.override 3 ⟨[.arg 3, .arg 3], [("strict", .const "False")]⟩) ∧
+    callMappedS (fun reg a => if reg = "zip_registry" then some a else none) (fun _ : Nat => true)
+      "zip" ⟨[.arg 3, .arg 4], []⟩ = .ok (.py ⟨"zip", ⟨[.arg 3, .arg 4], []⟩, true⟩) ∧
+    callMappedS (fun reg a => if reg = "print_registry" ∧ a = 9 then some 2 else none) (fun _ : Nat => true)
+      "print" ⟨[.arg 1, .arg 9], [("sep", .arg 5)]⟩ = .ok (.override 2 ⟨[.arg 1, .arg 9], [("sep", .arg 5)]⟩) :=
+  ⟨rfl, rfl, rfl, rfl⟩
+
+omit [DecidableEq α] in
+/-- No extra evaluation, any arguments at all (accepted or not, staged or not): if an overload of the
+table reaches its builtin, every value it hands over is one of the caller's own argument values or
+a literal; and the only argument whose truth value the library tests is `zip`'s `strict`. -/
+theorem C14_no_extra_evaluation (truthy : α → Bool) (b : String) (hb : b ∈ mappedBuiltins)
+    (c : CallShape α) (r : Fwd α) (h : callMapped truthy b c = .ok r) :
+    (∀ v ∈ valuesOf r.call, v ∈ valuesOf c ∨ isConst v = true) ∧
+    ∃ on ov hl, builtinFunctionsMap.lookup b = some on ∧ findOverload on = some ov ∧
+      findHelper ov.call.callee = some hl ∧
+      (∀ env1 : Env α, ∀ v ∈ truthTested truthy env1 hl.branches, v ∈ envVals env1) ∧
+      (∀ br ∈ hl.branches, ∀ g ∈ br.guards, ∀ p, g = .truthy p → hl.name = "_py_zip" ∧ p = "strict") := by
+  obtain ⟨on, ov, hl, h1, h2, _, _, h3, hbr⟩ := C14_table_rows b (List.mem_append_left _ hb)
+  rw [callMapped_unfold truthy b on ov c h1 h2] at h
+  exact ⟨callOverload_provenance truthy ov c r h, on, ov, hl, h1, h2, h3,
+    fun env1 => truthTested_vals truthy env1 hl.branches,
+    fun br hb' g hg p hp => (hbr br hb').2.2 g hg p hp⟩
+
+example : truthTested (fun n : Nat => n != 0) [("iterables", .star [.arg 1]), ("strict", .val (.arg 7))]
+    [⟨[.truthy "strict"], ⟨"zip", [], some "iterables", [("strict", .lit "True")], none⟩, .value⟩,
+     ⟨[], ⟨"zip", [], some "iterables", [], none⟩, .value⟩] = [.arg 7] := rfl
+
+/-! ## Arity errors (positional calls)
+
+Full statement (FALSE of the pinned code, counterexample below): whenever every documented form of
+`b` rejects `b(*pos)`, the substitute raises TypeError. -/
+
+omit [DecidableEq α] in
+/-- For every entry of the map and every purely positional call that the builtin's signature rejects
+(too few or too many arguments), the caller gets a TypeError: from the library's own binding, or
+from the builtin, which is handed a call that every documented form rejects (`map(f)`).  Excluded:
+`sorted` with 2 or 3 positionals, which the overload accepts. -/
+theorem C14_arity_errors_partial (truthy : α → Bool) (b : String) (hb : b ∈ mappedBuiltins)
+    (pos : List (Val α)) (hrej : AllReject b (⟨pos, []⟩ : CallShape α))
+    (hs : ¬ (b = "sorted" ∧ 2 ≤ pos.length ∧ pos.length ≤ 3)) : ArityError truthy b ⟨pos, []⟩ := by
+  simp only [mappedBuiltins, builtinFunctionsMap, List.map_cons, List.map_nil, List.mem_cons, List.not_mem_nil,
+    or_false] at hb
+  rcases hb with rfl | rfl | rfl | rfl | rfl | rfl | rfl | rfl | rfl | rfl | rfl | rfl | rfl | rfl
+  · exact arity_abs truthy pos hrej
+  · exact arity_any truthy pos hrej
+  · exact arity_all truthy pos hrej
+  · exact arity_enumerate truthy pos hrej
+  · exact arity_filter truthy pos hrej
+  · exact arity_float truthy pos hrej
+  · exact arity_int truthy pos hrej
+  · exact arity_len truthy pos hrej
+  · exact arity_map truthy pos hrej
+  · exact arity_next truthy pos hrej
+  · exact arity_print truthy pos hrej
+  · exact arity_range truthy pos hrej
+  · exact arity_sorted truthy pos hrej (fun h => hs ⟨rfl, h⟩)
+  · exact arity_zip truthy pos hrej
+
+example : ArityError (fun _ : Nat => true) "range" ⟨[.arg 1, .arg 2, .arg 3, .arg 4], []⟩ :=
+  .inl ⟨_, rfl⟩
+/-- Counterexample to the full statement: `sorted(xs, k)` is rejected by the builtin's signature, the
+overload forwards it as `sorted(xs, key=k)`. -/
+example : AllReject "sorted" (⟨[.arg 1, .arg 2], []⟩ : CallShape Nat) ∧
+    callMapped (fun _ : Nat => true) "sorted" ⟨[.arg 1, .arg 2], []⟩
+      = .ok ⟨"sorted", ⟨[.arg 1], [("key", .arg 2)]⟩, true⟩ ∧
+    accepts [⟨"iterable", .posOnly, none⟩, ⟨"key", .kwOnly, some "None"⟩, ⟨"reverse", .kwOnly, some "False"⟩]
+      (⟨[.arg 1], [("key", .arg 2)]⟩ : CallShape Nat) = true := by
+  refine ⟨?_, rfl, rfl⟩
+  intro form hf
+  simp [spec, specTable, List.lookup] at hf
+  subst hf; rfl
 
 /-! ## Results are the builtin's own objects -/
 
@@ -421,6 +576,157 @@ theorem C14_eval_none_globals_deviates (lib user : Nat) :
     (∀ l, evalSpec user [.none, .ns l] = some (.frameGlobals user, l) ∧
           evalForward lib user [.none, .ns l] = some (.frameGlobals lib, l)) :=
   ⟨rfl, rfl, fun _ => ⟨rfl, rfl⟩⟩
+
+/-! ## The frame discipline, for every nesting depth
+
+`GenStack name id g d gen u` (model file): the frames of one activation of a converted function seen
+from a call site nested in `d` functionalised bodies — `d` generated frames holding the scope object,
+interleaved with operator frames that do not, ending in the user function's frame `u`; all holders
+run in the generated module's globals `g`.  The whole stack is `lib ++ gen ++ outer` (`lib` = the
+library frames between the search and the call site, `outer` = the user's callers; neither holds
+this activation's scope object).  The search must skip exactly the generated frames.  The recorded
+real stacks are checked to be of this form by the driver (`genDepth`, `genGlobalsOk`), and
+`C14_recorded_stack_is_generated` is the soundness of that checker.
+
+Full statement for `eval`/`locals` (FALSE of the pinned code for `d > 0`, see
+`C14_frames_counterexample`): the frame found is `u`.  Proved: `super` and `globals` at full strength
+for every depth; `eval`/`locals` find the innermost generated frame, which is `u` iff `d = 0`, and
+under the negation of the listed findings (`bodyHidesName`, the `eval` argument classes) they see the
+user's namespaces. -/
+
+/-- Whatever real stack passes the driver's check is an activation obeying the discipline. -/
+theorem C14_recorded_stack_is_generated (name : String) (id g n : Nat) (stack : List Frame)
+    (hd : genDepth name id stack = some n) (hg : genGlobalsOk name id g stack = true) :
+    ∃ lib gen outer u, stack = lib ++ gen ++ outer ∧ GenStack name id g n gen u ∧
+      (∀ f ∈ lib, f.holds name id = false) ∧ (∀ f ∈ outer, f.holds name id = false) :=
+  genStack_of_check name id g n stack hd hg
+
+example : genDepth "fscope" 1
+    [⟨"lib", [], 9, []⟩, ⟨"loop_body", [("fscope", 1)], 7, ["itr"]⟩, ⟨"for_stmt", [], 6, []⟩, ⟨"if_body", [("fscope", 1)], 7, []⟩,
+     ⟨"if_stmt", [], 6, []⟩, ⟨"ag__m", [("self", 2), ("fscope", 1)], 7, ["self"]⟩, ⟨"caller", [("fscope", 8)], 3, []⟩] = some 2 := by decide
+
+/-- Zero-argument `super`, every depth (full strength): the search skips all `d` generated frames
+and the operator frames between them and returns the user function's frame, from which `__class__`
+and the first argument are read. -/
+theorem C14_super_all_depths (name : String) (id g d : Nat) (inn : Bool)
+    (hi : innermostOf "super" = some inn) (lib gen outer : List Frame) (u : Frame)
+    (hgen : GenStack name id g d gen u) (hout : ∀ f ∈ outer, f.holds name id = false) :
+    ∃ i, findOriginatingFrame name id inn (lib ++ gen ++ outer) = some i ∧
+      i = lib.length + gen.length - 1 ∧ (lib ++ gen ++ outer)[i]? = some u ∧
+      ((lib ++ gen ++ outer)[i]?).bind superArgs = superSpec u := by
+  obtain ⟨pre, hpre, hu, _, _, _⟩ := hgen.split
+  have hst : lib ++ gen ++ outer = (lib ++ pre) ++ u :: outer := by rw [hpre]; simp
+  obtain ⟨i, h1, h2, h3⟩ := C14_super_frame name id inn hi (lib ++ pre) u outer hu hout
+  have hidx : findOriginatingFrame name id inn ((lib ++ pre) ++ u :: outer) = some (lib ++ pre).length := by
+    have : inn = false := by simpa [innermostOf, frameSearchInnermost, List.lookup] using hi.symm
+    subst this
+    simpa [findOriginatingFrame] using findLoop_outermost name id u outer hu hout (lib ++ pre) 0 none
+  rw [hst]
+  refine ⟨i, h1, ?_, h2, h3⟩
+  rw [h1] at hidx
+  injection hidx with hidx
+  rw [hidx, hpre]
+  simp only [List.length_append, List.length_cons, List.length_nil]
+  omega
+
+/-- `eval`/`locals`/`globals`, every depth: the search stops at the innermost generated frame — the
+one containing the call — and that frame is the user function's exactly when the call is not nested
+in a functionalised body. -/
+theorem C14_frames_all_depths (name : String) (id g d : Nat) (b : String) (inn : Bool)
+    (hb : b = "eval" ∨ b = "locals" ∨ b = "globals") (hi : innermostOf b = some inn)
+    (lib gen outer : List Frame) (u : Frame) (hgen : GenStack name id g d gen u)
+    (hlib : ∀ f ∈ lib, f.holds name id = false) :
+    ∃ c t, gen = c :: t ∧ findOriginatingFrame name id inn (lib ++ gen ++ outer) = some lib.length ∧
+      (lib ++ gen ++ outer)[lib.length]? = some c ∧ c.globals = g ∧
+      (lib.length = lib.length + gen.length - 1 ↔ d = 0) ∧ (d = 0 → c = u) := by
+  obtain ⟨c, t, hct, hc, hcg, h0⟩ := hgen.head
+  obtain ⟨pre, hpre, _, _, hd, hd0⟩ := hgen.split
+  refine ⟨c, t, hct, ?_, ?_, hcg, ?_, fun h => (h0 h).1⟩
+  · have := C14_frames_innermost name id b inn hb hi lib c (t ++ outer) hlib hc
+    rw [hct]; simpa using this
+  · rw [hct]; simp
+  · rw [hpre]
+    simp only [List.length_append, List.length_cons, List.length_nil]
+    constructor
+    · intro h; omega
+    · intro h; rw [hd0 h]; simp
+
+/-- `globals()`, every depth and either search mode (full strength): the frame found runs in the
+user function's globals. -/
+theorem C14_globals_all_depths (name : String) (id g d : Nat) (inn : Bool)
+    (lib gen outer : List Frame) (u : Frame) (hgen : GenStack name id g d gen u)
+    (hlib : ∀ f ∈ lib, f.holds name id = false) (hout : ∀ f ∈ outer, f.holds name id = false)
+    (i : Nat) (h : findOriginatingFrame name id inn (lib ++ gen ++ outer) = some i) :
+    ((lib ++ gen ++ outer)[i]?).map (·.globals) = some u.globals := by
+  obtain ⟨_, _, _, hug, _, _⟩ := hgen.split
+  rw [hug]
+  apply C14_globals name id inn _ g _ i h
+  intro f hf hh
+  simp only [List.mem_append] at hf
+  rcases hf with (hf | hf) | hf
+  · rw [hlib f hf] at hh; cases hh
+  · exact hgen.globals f hf hh
+  · rw [hout f hf] at hh; cases hh
+
+/-- On a stack obeying the discipline the class predicate of the body finding says exactly: the
+innermost generated frame does not show a needed user variable the way the user's frame does. -/
+theorem C14_bodyHidesName_all_depths (name : String) (id g d : Nat) (needed : List String)
+    (lib gen outer : List Frame) (u c : Frame) (t : List Frame) (hgen : GenStack name id g d gen u)
+    (hct : gen = c :: t)
+    (hlib : ∀ f ∈ lib, f.holds name id = false) (hout : ∀ f ∈ outer, f.holds name id = false) :
+    bodyHidesName name id needed (lib ++ gen ++ outer) = !lookupAgree c u needed := by
+  obtain ⟨pre, hpre, hu, _, _, _⟩ := hgen.split
+  obtain ⟨c', t', hct', hc, _, _⟩ := hgen.head
+  rw [hct] at hct'; injection hct' with e1 e2; subst e1 e2
+  have h1 : findOriginatingFrame name id true (lib ++ gen ++ outer) = some lib.length := by
+    have := findLoop_innermost name id c (t ++ outer) hc lib 0 none hlib
+    rw [hct]; simpa [findOriginatingFrame] using this
+  have h2 : findOriginatingFrame name id false (lib ++ gen ++ outer) = some (lib ++ pre).length := by
+    have := findLoop_outermost name id u outer hu hout (lib ++ pre) 0 none
+    rw [hpre]; simpa [findOriginatingFrame] using this
+  have e1 : (lib ++ gen ++ outer)[lib.length]? = some c := by rw [hct]; simp
+  have e2 : (lib ++ gen ++ outer)[(lib ++ pre).length]? = some u := by
+    rw [hpre]
+    have : lib ++ (pre ++ [u]) ++ outer = (lib ++ pre) ++ u :: outer := by simp
+    rw [this]; simp
+  simp only [bodyHidesName, h1, h2, e1, e2]
+
+/-- `eval` and `locals`, every depth, under the negation of the listed findings: if the innermost
+generated frame shows every user variable the call needs as the user's frame does (negation of
+`bodyHidesName`) and the `eval` arguments are of a faithful form (negation of the two `eval` classes),
+then the namespaces used are the user's: the user function's globals, the user's objects for every
+needed name, and for `eval` the (globals, locals) pair the library reference prescribes. -/
+theorem C14_eval_locals_in_context_partial (name : String) (id g d : Nat) (b : String) (inn : Bool)
+    (hb : b = "eval" ∨ b = "locals") (hi : innermostOf b = some inn)
+    (needed : List String) (extra : List EArg)
+    (lib gen outer : List Frame) (u : Frame) (hgen : GenStack name id g d gen u)
+    (hlib : ∀ f ∈ lib, f.holds name id = false) (hout : ∀ f ∈ outer, f.holds name id = false)
+    (hvis : bodyHidesName name id needed (lib ++ gen ++ outer) = false)
+    (hargs : evalArgsFaithful extra = true) :
+    ∃ i found, findOriginatingFrame name id inn (lib ++ gen ++ outer) = some i ∧
+      (lib ++ gen ++ outer)[i]? = some found ∧ found.globals = u.globals ∧
+      (∀ n ∈ needed, found.locals.lookup n = u.locals.lookup n) ∧
+      (∀ libFrame, evalForward libFrame i extra = evalSpec i extra) := by
+  have hb' : b = "eval" ∨ b = "locals" ∨ b = "globals" := by
+    rcases hb with h | h
+    · exact .inl h
+    · exact .inr (.inl h)
+  obtain ⟨c, t, hct, hfind, hget, hcg, _, _⟩ :=
+    C14_frames_all_depths name id g d b inn hb' hi lib gen outer u hgen hlib
+  obtain ⟨_, _, _, hug, _, _⟩ := hgen.split
+  refine ⟨lib.length, c, hfind, hget, by rw [hcg, hug], ?_, fun l => C14_eval_args_partial l _ extra hargs⟩
+  rw [C14_bodyHidesName_all_depths name id g d needed lib gen outer u c t hgen hct hlib hout] at hvis
+  simp only [Bool.not_eq_false', lookupAgree, List.all_eq_true, beq_iff_eq] at hvis
+  exact hvis
+
+/-- Non-vacuity: a depth-2 activation (loop body inside an if body) whose innermost frame shows `u`. -/
+example : GenStack "fscope" 1 7 2
+    [⟨"loop_body", [("fscope", 1), ("u", 4)], 7, ["itr"]⟩, ⟨"for_stmt", [], 6, []⟩,
+     ⟨"if_body", [("fscope", 1), ("u", 4)], 7, []⟩, ⟨"if_stmt", [], 6, []⟩,
+     ⟨"ag__f", [("a", 2), ("fscope", 1), ("u", 4), ("v", 5)], 7, ["a"]⟩]
+    ⟨"ag__f", [("a", 2), ("fscope", 1), ("u", 4), ("v", 5)], 7, ["a"]⟩ :=
+  .body 1 _ [⟨"for_stmt", [], 6, []⟩] _ _ rfl rfl (by decide)
+    (.body 0 _ [⟨"if_stmt", [], 6, []⟩] _ _ rfl rfl (by decide) (.user _ rfl rfl))
 
 /-! ## Content of the user frame seen by a dynamic read
 
